@@ -11,7 +11,7 @@ for X in M1 M2 M3 M4; do
   suite=$(echo "$out" | sed -n '/existing tests/,/demo with mutation/p' | grep -c "test result: ok")
   fails=$(echo "$out" | sed -n '/demo with mutation/,$p' | grep -c "FAILED\|test failed")
   if [ "$clean" -ge 1 ] && [ "$suite" -ge 2 ] && [ "$fails" -ge 1 ]; then
-    L=""; for c in o p q r s t u v w x y z; do [ -d /verif/seeded/$P-$c ] || { L=$c; break; }; done
+    L=""; for c in 9o 9p 9q 9r 9s 9t 9u 9v 9w; do [ -d /verif/seeded/$P-$c ] || { L=$c; break; }; done
     mkdir -p /verif/seeded/$P-$L
     cp $WT/MUTATION_$X/patch.diff $WT/MUTATION_$X/demo.rs $WT/MUTATION_$X/meta.json /verif/seeded/$P-$L/
     python3 - <<PY
